@@ -71,8 +71,78 @@ func (x *Exec) binop(st *State, op token.Token, a, b Value, opndType types.Type)
 	return nil
 }
 
-// wrapInt: integers are mathematical (assumption A2); nothing to do.
-func (x *Exec) wrapInt(st *State, t *Term, typ types.Type) *Term { return t }
+// intRange returns the bit width and signedness of sized integer types
+// narrower than 64 bits (0 for int, int64, uint, uint64, uintptr: those are
+// read as mathematical integers, assumption A2).
+func intRange(typ types.Type) (bits int, unsigned bool) {
+	b, ok := typ.Underlying().(*types.Basic)
+	if !ok {
+		return 0, false
+	}
+	switch b.Kind() {
+	case types.Uint8:
+		return 8, true
+	case types.Uint16:
+		return 16, true
+	case types.Uint32:
+		return 32, true
+	case types.Int8:
+		return 8, false
+	case types.Int16:
+		return 16, false
+	case types.Int32:
+		return 32, false
+	}
+	return 0, false
+}
+
+func mkMod(a *Term, m int64) *Term {
+	if a.isConst() && a.rat.IsInt() {
+		r := new(big.Int).Mod(a.rat.Num(), big.NewInt(m))
+		return mkRat(new(big.Rat).SetInt(r), SInt)
+	}
+	return mkOp("mod", SInt, a, mkInt(m))
+}
+
+// wrapInt: arithmetic in 8/16/32-bit integer types wraps as the machine does.
+func (x *Exec) wrapInt(st *State, t *Term, typ types.Type) *Term {
+	if t.sort != SInt || typ == nil {
+		return t
+	}
+	bits, unsigned := intRange(typ)
+	if bits == 0 {
+		return t
+	}
+	m := int64(1) << uint(bits)
+	if unsigned {
+		return mkMod(t, m)
+	}
+	return mkSub(mkMod(mkAdd(t, mkInt(m/2)), m), mkInt(m/2))
+}
+
+// rangeAxiom constrains a symbolic value of a sized integer type.
+func rangeAxiom(st *State, v *Term, typ types.Type) {
+	if v.sort != SInt || typ == nil {
+		return
+	}
+	b, ok := typ.Underlying().(*types.Basic)
+	if !ok {
+		return
+	}
+	bits, unsigned := intRange(typ)
+	if bits == 0 {
+		if b.Info()&types.IsUnsigned != 0 {
+			st.axiom(mkLe(mkInt(0), v))
+		}
+		return
+	}
+	m := int64(1) << uint(bits)
+	if unsigned {
+		st.axiom(mkAnd(mkLe(mkInt(0), v), mkLt(v, mkInt(m))))
+	} else {
+		st.axiom(mkAnd(mkLe(mkInt(-m/2), v), mkLt(v, mkInt(m/2))))
+	}
+}
 
 func (x *Exec) bitop(op token.Token, a, b *Term, typ types.Type) *Term {
 	ai, aok := a.int64()
@@ -203,6 +273,9 @@ func (x *Exec) valuesEqual(a, b Value) *Term {
 			if va == vb {
 				return tTrue
 			}
+			if va.id != nil && vb.id != nil {
+				return mkEq(va.id, vb.id)
+			}
 		}
 		if isNilB {
 			if va.nilT != nil {
@@ -288,9 +361,26 @@ func (x *Exec) unop(st *State, fr *Frame, in *ssa.UnOp) Value {
 	return nil
 }
 
+// chanRecv: a receive yields an arbitrary value of the element type (the next
+// element of the ghost sequence of values sent on the channel, A6) and, in the
+// comma-ok form, an arbitrary "more to come" flag.
 func (x *Exec) chanRecv(st *State, fr *Frame, in *ssa.UnOp, ch Value) Value {
-	fail("channel receive not modelled in %s", fr.fn)
-	return nil
+	x.note("channel receive yields the next sent value, each exactly once and in order (A6); values themselves arbitrary")
+	var et types.Type
+	if tt, ok := in.Type().(*types.Tuple); ok {
+		et = tt.At(0).Type()
+	} else {
+		et = in.Type()
+	}
+	x.recvCtr++
+	v := x.symValue(st, et, fmt.Sprintf("recv%d", x.recvCtr))
+	st.log = append(st.log, Event{kind: "recv", args: []Value{ch, v}})
+	st.version++
+	if in.CommaOk {
+		ok := freshVar(fmt.Sprintf("recvok%d", x.recvCtr), SBool)
+		return &Tuple{typ: in.Type(), el: []Value{v, ok}}
+	}
+	return v
 }
 
 func (x *Exec) convert(st *State, v Value, from, to types.Type) Value {
@@ -309,6 +399,9 @@ func (x *Exec) convert(st *State, v Value, from, to types.Type) Value {
 			if sf == SInt {
 				tb := to.Underlying().(*types.Basic)
 				fb := from.Underlying().(*types.Basic)
+				if bits, _ := intRange(to); bits != 0 {
+					return x.wrapInt(st, t, to)
+				}
 				if narrower(fb, tb) {
 					x.note(fmt.Sprintf("integer conversion %s->%s assumed not to truncate (A2)", fb.Name(), tb.Name()))
 				}
